@@ -16,4 +16,5 @@ def run(ctx):
         sections=['unchanged'],
         select=lambda e: e['ev']['op'] in ('add', 'merged') and not e['ev']['ok'],
         meta_rule='every rejected AddFeature / failing MergedChange transition of the TLC graph executed via its shortest prefix on 4 world constructions + random walks',
-        assumptions=['rejection is judged by the error returned by the real call'])
+        assumptions=['rejection is judged by the error returned by the real call'],
+        focused=(120, 2000))
